@@ -278,7 +278,7 @@ type rustIssuance struct {
 
 // rust replays each vector of the Rust implementation as a recorded trace from a foreign node.
 func (c c11) rust(w *world.World, res *core.Result) {
-	data, err := os.ReadFile("/repo/tokens/batched/batched-issuance-test-vectors-rust.json")
+	data, err := os.ReadFile(core.RepoDir() + "/tokens/batched/batched-issuance-test-vectors-rust.json")
 	if err != nil {
 		res.Infra = "cannot read the Rust interop vectors: " + err.Error()
 		return
